@@ -1723,8 +1723,11 @@ func makePointerArshaler(t reflect.Type) *arshaler {
 	}
 	fncs.marshal = func(enc *jsontext.Encoder, va addressableValue, mo *jsonopts.Struct) error {
 		// Check for cycles.
+		// A pointer to a pointer or interface does not increase the JSON depth,
+		// so a cycle running only through such values would never be detected
+		// by the depth heuristic. Always check for cycles in that case.
 		xe := export.Encoder(enc)
-		if xe.Tokens.Depth() > startDetectingCyclesAfter {
+		if k := t.Elem().Kind(); xe.Tokens.Depth() > startDetectingCyclesAfter || k == reflect.Pointer || k == reflect.Interface {
 			if err := visitPointer(&xe.SeenPointers, va.Value); err != nil {
 				return newMarshalErrorBefore(enc, t, err)
 			}
